@@ -89,7 +89,7 @@ func genC18(t *rapid.T) any {
 	c.Proxy = rapid.IntRange(0, 3).Draw(t, "proxy") == 3
 	n := rapid.IntRange(2, pick(12, 16)).Draw(t, "nreq")
 	for i := 0; i < n; i++ {
-		r := C18Req{Kind: rapid.SampledFrom([]string{"lookup", "lookup", "lookup", "rc", "rc", "pb", "pb", "pass", "error", "restart"}).Draw(t, "rkind")}
+		r := C18Req{Kind: rapid.SampledFrom([]string{"lookup", "lookup", "lookup", "rc", "rc", "pb", "pb", "pass", "error", "restart", "purge"}).Draw(t, "rkind")}
 		r.DelayUS = rapid.SampledFrom([]int{0, 0, 0, 20, 100, 300}).Draw(t, "delay")
 		switch r.Kind {
 		case "lookup":
@@ -165,7 +165,11 @@ type c18Resp struct {
 }
 
 func c18Request(i int, r C18Req, marker string) *http.Request {
-	req := httptest.NewRequest(http.MethodGet, "http://example.com"+r.URL, nil)
+	method := http.MethodGet
+	if r.Kind == "purge" {
+		method = "FASTLYPURGE" // runs vcl_recv only and is answered with the purge acceptance document
+	}
+	req := httptest.NewRequest(method, "http://example.com"+r.URL, nil)
 	req.Header.Set("X-Marker", marker)
 	req.Header.Set("X-Kind", r.Kind)
 	if r.Key != "" {
@@ -228,6 +232,9 @@ var c18Volatile = map[string]bool{"date": true, "age": true, "x-timer": true, "x
 // c18Norm renders the parts of a response the property names, with the marker replaced.
 func c18Norm(r c18Resp, marker string) string {
 	var b strings.Builder
+	if strings.Contains(r.raw, "falco_purge_") {
+		return fmt.Sprintf("purge answer status=%d body=%s\n", r.status, r.raw)
+	}
 	if r.proxy {
 		// the actual response: status, the headers the VCL and the cache produce, body
 		fmt.Fprintf(&b, "status=%d\n", r.status)
@@ -334,7 +341,7 @@ func checkC18(raw json.RawMessage) iso.Result {
 		if srv == nil {
 			return c18Serve(ip, req, c.Proxy)
 		}
-		out, err := http.NewRequest(http.MethodGet, srv.URL+path, nil)
+		out, err := http.NewRequest(req.Method, srv.URL+path, nil)
 		if err != nil {
 			r.panicked = err.Error()
 			return r
@@ -386,7 +393,7 @@ func checkC18(raw json.RawMessage) iso.Result {
 			col.Failf("request #%d: ServeHTTP panicked / transport failed: %s\n%s", i, r.panicked, plan())
 			return col.Done()
 		}
-		if !c.Proxy && len(r.rep.Flows) == 0 {
+		if !c.Proxy && len(r.rep.Flows) == 0 && c.Reqs[i].Kind != "purge" {
 			col.Failf("request #%d: response is not a flow report (status %d): %.300s\n%s", i, r.status, r.raw, plan())
 			return col.Done()
 		}
